@@ -146,6 +146,7 @@ type byzDealer struct {
 	answerKind string
 	extra      []string // extra broadcast behaviours
 	answered   map[int]bool
+	preAnswer  map[int]bool // receivers for which a valid answer was broadcast before any complaint (extra behaviour)
 	mustDisq   bool
 	sentLate   bool
 }
@@ -253,6 +254,10 @@ func (nt *dkgNet) byzRound1(b *byzDealer) {
 		case "unsolicited-answer":
 			k := nt.c.intn(nt.n)
 			nt.bcast(b.idx, answerMsg(k, b.p.eval(k+1)))
+			if b.preAnswer == nil {
+				b.preAnswer = map[int]bool{}
+			}
+			b.preAnswer[k] = true
 		case "spurious-complaint":
 			// a complaint against an honest dealer (joint protocol): the honest dealer answers it
 			k := nt.c.intn(nt.n)
@@ -327,6 +332,7 @@ func genDkgRuns(c *Ctx, prop string) {
 	if prop == "C08" {
 		genFvssOrders(c)
 	}
+	genDkgEnum(c, false)
 	for it := 0; it < nRuns; it++ {
 		cfg := configs[it%len(configs)]
 		n, t := cfg[0], cfg[1]
@@ -513,7 +519,15 @@ func dkgPredicates(nt *dkgNet, bds []*byzDealer, prop string) string {
 		if complainers > nt.t {
 			must = fmt.Sprintf("%d complaints > t", complainers)
 		}
-		if complainers > 0 && (b.answerKind == "omit" || b.answerKind == "wrong" || b.answerKind == "wrong-size" || b.answerKind == "bad-complainer" || b.answerKind == "zero") {
+		// a valid answer broadcast before the complaint is an answer (every honest node keeps it): such a
+		// complaint is neither unanswered nor wrongly answered, the exact verdict is then the model's business
+		preAnswered := false
+		for i, k := range b.shareKind {
+			if i != b.idx && !nt.byz[i] && k != "ok" && k != "duplicate" && b.preAnswer[i] {
+				preAnswered = true
+			}
+		}
+		if complainers > 0 && !preAnswered && (b.answerKind == "omit" || b.answerKind == "wrong" || b.answerKind == "wrong-size" || b.answerKind == "bad-complainer" || b.answerKind == "zero") {
 			must = "complaint answered with " + b.answerKind
 		}
 		if must != "" {
